@@ -147,6 +147,37 @@ def c06_once(rep, tier):
         rep.sample({"once_scenario": hs[0][0]["threads"], "history": hs[0][1]["ev"]})
 
 
+def c13_concurrent(rep, tier):
+    """Two threads whose typed messages fail to serialize through the same Logger at overlapping times (and a third that logs plain
+    messages): each failure gets its own traceback and serialization_failure whatever the interleaving (FanoutA.tla)."""
+    quick = tier == "quick"
+    rng = random.Random(SEED + 13)
+    scs = []
+    for th, serfail, dests in [({"T1": [1], "T2": [2]}, [1, 2], [1]), ({"T1": [1, 2], "T2": [3]}, [1, 3], [1, 2]),
+                               ({"T1": [1], "T2": [2], "T3": [3]}, [1, 2], [1])]:
+        scs.append({"kind": "fanout", "threads": th, "fail": {}, "serfail": serfail, "dests": dests, "max_pre": 2 if len(th) == 2 else 1,
+                    "cap": 150 if quick else 6000, "random": 40 if quick else 1500, "seed": rng.randint(0, 10 ** 9), "budget_s": 40 if quick else 400})
+    results = run_scenarios(scs)
+    hs = [(res["scenario"], h) for res in results for h in res["runs"]]
+    acc, st = tlc_accepts("FanoutA", "FanoutA.cfg", [h for _, h in hs])
+    rep.cov["states"] += st
+    rep.cov["transitions"] += st
+    rep.cov["concurrent_serialization_failure_schedules"] = len(hs)
+    for (sc, h), a in zip(hs, acc):
+        rep.cov["traces_validated_against_impl"] += 1
+        rep.count_case(["serfail-fanout", sc["threads"], h["schedule"]], len(set(h["schedule"])) > 1)
+        if h["errors"]:
+            rep.violation("a logging call raised under concurrency: %s" % h["errors"][:2],
+                          {"engine": "conc", "module": "checks_conc_extra", "scenario": sc, "schedule": h["schedule"]})
+        elif a is None:
+            raise MachineryFailure("no verdict for a serialization-failure history")
+        elif a[2]:
+            rep.violation("typed messages failing to serialize in several threads at once: %s" % a[2],
+                          {"engine": "conc", "module": "checks_conc_extra", "scenario": sc, "schedule": h["schedule"], "history": h["ev"]})
+    if hs:
+        rep.sample({"serfail_scenario": hs[0][0]["threads"], "history": hs[0][1]["ev"][:12]})
+
+
 def c08_concurrent(rep, tier):
     """Two or three threads logging at once through destinations that fail: exact accounting of reports whatever the interleaving."""
     quick = tier == "quick"
